@@ -431,6 +431,14 @@ def obligations(tier, seed):
     specs.append(spec(MOD, 'CondHarness', 'twin/CondHarness', kind='witness', cfg=dict(service='wmts', inm='current', ims='date', max_age=3600)))
     for label, patches, c in (CANARIES if tier == 'thorough' else CANARIES[:4]):
         specs.append(spec(MOD, 'CondHarness', 'canary/' + label, kind='canary', cfg=dict(c, max_age=3600), patches=patches))
+    # a tile merged from several sources: the merged image is cacheable only if every layer is (LayerMerger.merge composition
+    # loop, the C14 harness with PIL replaced by per-pixel arithmetic; here only the flag is asserted)
+    from props.C14_merge import COMPOSITIONS
+    for c in (COMPOSITIONS if tier == 'thorough' else COMPOSITIONS[:1] + COMPOSITIONS[4:5]):
+        specs.append(spec('props.C14_merge', 'Composition', 'merged-tile-cacheable-only-if-every-layer-is/%s-out/%s-over-%s' % (c['out'], c['modes'][1], c['modes'][0]),
+                          cfg=dict(c, check='cacheable'), cost=3))
+    specs.append(spec('props.C14_merge', 'Composition', 'canary/merged image forgets an uncacheable layer', kind='canary', cfg=dict(COMPOSITIONS[0], check='cacheable'), cost=3,
+                      patches={'mapproxy.image.merge': [("            if not layer_img.cacheable:\n                cacheable = False\n", "")]}))
     return specs
 
 
